@@ -687,6 +687,41 @@ def r01d(ctx):
     else:
         ctx.proved("R01d", f.file, "FixedKeyDictNode._child_edits", f.node, "visits every pair",
                    "no return/break: both loops run over all pairs")
+    # the partition analysed above is the one in use: every keyed edit FixedKeyDictNode builds is fed by _child_edits()
+    n += 1
+    ed = m.method(q, "edits")
+    builds = []
+    if ed is not None:
+        from ..astx import class_helpers
+        for g_ in class_helpers(m, q, ed, depth=1):
+            if g_.node is f.node:
+                continue
+            for c in walk_no_nested(g_.node):
+                if isinstance(c, ast.Call) and call_name(c) and m.find_class(call_name(c).split(".")[-1]) is not None \
+                        and m.is_subclass(m.find_class(call_name(c).split(".")[-1]), m.need_class("SequenceEdit")) and kwarg(c, "edits", 2) is not None:
+                    builds.append((g_, c))
+    for g_, c in builds:
+        src = kwarg(c, "edits", 2)
+        if isinstance(src, ast.Name):
+            vals = [a.value for a in walk_no_nested(g_.node) if isinstance(a, ast.Assign) and len(a.targets) == 1
+                    and isinstance(a.targets[0], ast.Name) and a.targets[0].id == src.id]
+            src = vals[0] if len(vals) == 1 else src
+        if isinstance(src, ast.Call) and self_attr(src.func) == "_child_edits":
+            ctx.proved("R01d", g_.file, g_.short, c, f"{g_.short} keyed edit fed by the partition",
+                       f"`{norm(c, 70)}` takes its sub-edits from _child_edits()")
+            continue
+        region = [src]
+        if isinstance(src, ast.Call) and self_attr(src.func) and m.method(q, self_attr(src.func)) is not None:
+            region.append(m.method(q, self_attr(src.func)).node)
+        positional = [x for r_ in region for x in ast.walk(r_) if isinstance(x, ast.Call) and (call_name(x) or "").split(".")[-1] in ("zip", "zip_longest", "enumerate")]
+        if positional:
+            ctx.violation("R01d", g_.file, g_.short, c, f"{g_.short} keyed edit fed by the partition",
+                          f"`{norm(c, 70)}` takes its sub-edits from `{norm(positional[0], 50)}`, which pairs the entries of the two mappings by "
+                          f"position, not by key: entries with different keys are paired (a key `Replace` under the 'none' strategy) and the "
+                          f"script depends on the order the keys were written in")
+        else:
+            ctx.inconclusive("R01d", g_.file, g_.short, c, f"{g_.short} keyed edit fed by the partition",
+                             f"`{norm(c, 70)}` takes its sub-edits from `{norm(src, 50)}`, not from the keyed partition _child_edits() analysed here")
     ctx.floor("R01d", n, 3, "keyed partition obligations")
 
 
